@@ -134,6 +134,13 @@ def run_reference(case):
     sch = make_schema(case)
     w = G.populate_ref(sch, case.get('population') or POPULATION)
     m = R.Machine(w, max_steps=4000, max_depth=12, max_calls=60)
+    try:
+        return G.with_timeout(lambda: _run_reference(case, sch, w, m), 10.0)
+    except G.Timeout:
+        raise R.OutOfDomain('reference evaluation exceeds its time budget')
+
+
+def _run_reference(case, sch, w, m):
     e = case['entry']
     this = w.extent['A'][e['this']] if e.get('this') is not None else None
     if e['kind'] == 'derived':
@@ -190,8 +197,6 @@ def check_case(case):
         return None
     result, snap, err = run_real(case)
     required = dict(returns=G.plain(ref_result))
-    if err == 'timeout':
-        return [('bounded-time', 'no result within 8 s of CPU time', 'terminates (the reference makes at most 60 invocations)')]
     clause = 'call-result-and-final-population'
     if 'bare-return' in machine.events:
         clause = 'bare-return-delivers-nothing'
@@ -199,8 +204,13 @@ def check_case(case):
         clause = 'enumerator-modeled-order'
     elif case.get('rows'):
         clause = 'row-order-independent'
-    if case.get('clause'):
-        clause = case['clause'] if 'bare-return' not in machine.events else clause
+    elif case.get('clause'):
+        clause = case['clause']
+    if err == 'timeout':
+        what = 'no result within 8 s of CPU time (the reference makes at most 60 invocations)'
+        if clause == 'enumerator-modeled-order':      # e.g. a loop bound computed from an enumerator
+            return [(clause, what, required)]
+        return [('bounded-time', what, 'terminates')]
     if err:
         return [(clause, err, required)]
     diff = G.differences(ref_result, ref_snap, result, snap)
